@@ -15,7 +15,7 @@ RULE = ("line level: the sample lines of data_test.go and boundary shapes, then 
 TRUSTED_BASE = [
     "net.ParseIP / IP.String enter the theorems as Section hypotheses (parse (print a) = Some a for 16-byte a, parse of the empty text = None, "
     "no ',' in the printed text); net.ParseCIDR / IPNet.String enter through a per-record premise inside wf_record (the printed network parses back); "
-    "strconv.IsPrint and unicode.ToLower on runes >= 0x80 are oracles (theorems hold for every IsPrint; ToLower through three hypotheses about '.'); "
+    "strconv.IsPrint on runes >= 0x80 is an oracle (the theorems hold for every IsPrint); "
     "the harness reports the observed values and the model is evaluated with exactly those; the hypotheses themselves are re-checked on every observed value",
     "the rearranger (C03) is a parameter of Preproc.v: any function from the file's subnet records to range-point records with rearrange [] = []",
     "B/H (SVCB/HTTPS) lines are not modelled in Text.v: they are exercised against the round-trip property itself (spec_ok) only",
@@ -44,7 +44,7 @@ def _tables(c):
     ips = clist([cpair(cbytes(e["ip"]), cbytes(e["t"])) for e in c["ips"]])
     cp = clist([cpair(cbytes(e["t"]), "(%s,%d,%d)" % (cbytes(e["ip"]), e["ones"], e["bits"])) for e in c["cp"]])
     np = clist(["(%s,%d,%s)" % (cbytes(e["ip"]), e["ones"], cbytes(e["t"])) for e in c["np"]])
-    ru = clist([cpair(cN(r), cpair(cbool(p), cN(lo))) for r, p, lo in c["runes"]])
+    ru = clist([cpair(cN(r), cbool(p)) for r, p, lo in c["runes"]])
     return "(mkT %s %s %s %s %s)" % (ipp, ips, cp, np, ru)
 
 
